@@ -567,6 +567,14 @@ bool Importer::ImporterImpl::fetchComponent(const ComponentPtr &importComponent,
     }
 
     history.pop_back();
+
+    // Fetch any components of the importing model that are encapsulated inside this imported component.
+    for (size_t c = 0; c < importComponent->componentCount(); ++c) {
+        if (!fetchComponent(importComponent->component(c), baseFile, history)) {
+            return false;
+        }
+    }
+
     return true;
 }
 
